@@ -97,6 +97,18 @@ def overlaps_taint(rep, idx):
     for f, n, p in uses:
         if f.name == "__init__":
             continue
+        # reads inside the message of a raise cannot influence the generated hardware
+        anc, in_raise = n, False
+        chain = {}
+        for x in ast.walk(f.node):
+            for ch in ast.iter_child_nodes(x):
+                chain[ch] = x
+        while anc in chain:
+            anc = chain[anc]
+            if isinstance(anc, ast.Raise):
+                in_raise = True
+        if in_raise:
+            continue
         ok = f.name == "prepare" and isinstance(p, ast.Compare)
         if not ok:
             bad.append((f, n))
